@@ -184,6 +184,19 @@ pub struct RunOut {
     pub cmd_log: Vec<(u8, u32)>,
 }
 
+thread_local! {
+    /// protocol-monitor findings of the most recent fault-free run on this thread
+    static LAST_VIOLATIONS: std::cell::RefCell<Vec<String>> = std::cell::RefCell::new(Vec::new());
+}
+
+struct ViolGuard(SimCard);
+impl Drop for ViolGuard {
+    fn drop(&mut self) {
+        let v = self.0 .0.borrow().viol.clone();
+        LAST_VIOLATIONS.with(|l| *l.borrow_mut() = v);
+    }
+}
+
 /// Fault-free run: C12 oracle (model of the card memory), optionally with
 /// every n-block call replaced by n single-block calls.
 pub fn run_clean(c: &SdCase, split: bool, prop: &'static str, acc: &mut Acc) -> Result<RunOut, Failure> {
@@ -191,6 +204,7 @@ pub fn run_clean(c: &SdCase, split: bool, prop: &'static str, acc: &mut Acc) -> 
     let delay = NoDelay(Rc::new(std::cell::Cell::new(0)));
     let sd: Drv = SdCard::new_with_options(card.clone(), delay, AcquireOpts { use_crc: c.use_crc, acquire_retries: c.acquire_retries.max(1) as u32 + c.timing.cmd0_ignored as u32 });
     let blocks_cap = card.0.borrow().blocks;
+    let _guard = ViolGuard(card.clone());
     let v2_layout = c.kind == Kind::V2Hc;
     let mut model: HashMap<u32, [u8; 512]> = HashMap::new();
     let mut written: Vec<u32> = Vec::new();
@@ -377,7 +391,18 @@ fn acc_class_static(c: &'static str, multi: bool) -> &'static str {
 }
 
 pub fn run_c12_c14(c: &SdCase, prop: &'static str, acc: &mut Acc) -> Result<(), Failure> {
-    let a = run_clean(c, false, prop, acc)?;
+    let a = match run_clean(c, false, prop, acc) {
+        Ok(a) => a,
+        Err(f) => {
+            // for the protocol property the monitor's own finding is the more precise report
+            if prop == "C14" {
+                if let Some(v) = LAST_VIOLATIONS.with(|l| l.borrow().first().cloned()) {
+                    return Err(fail("C14", "protocol-violation", format!("{} (then: {}; card {:?}, crc {}, timing {:?})", v, f.detail, c.kind, c.use_crc, c.timing)));
+                }
+            }
+            return Err(f);
+        }
+    };
     if prop == "C14" || prop == "C12" {
         if prop == "C14" {
             if let Some(v) = a.viol.first() {
